@@ -4,18 +4,52 @@ import os
 
 HERE = os.path.dirname(os.path.dirname(os.path.abspath(__file__)))
 
-CHECKS = {
-    "C02": dict(
-        category="other",
-        text="Mixed: every elementwise op/activation (own __call__/backward_var ASTs from /repo) has its VJP, frame and alias contracts "
-        "discharged by PyVC+z3 for all real inputs; every other Operation subclass (complete AST enumeration) is under a bounded "
-        "run-time VJP contract over an enumerated catalogue, reported separately and never counted as proved.",
-        design_ref="DESIGN.md §6 C02, §14",
-        note="trusted: contracts/derivative_table.py, identity basis in pyvc/realdom.py, NumPy kernels = mathematical namesakes, "
-        "reals for floats, z3/cvc5; bounded part: numeric central differences as oracle",
-        technique="contract-based deductive verification: AST->VC symbolic execution of real ops, z3 NRA; bounded run-time VJP contract for kernels",
-    ),
-}
+CHECKS = {}
+
+
+def _c(pid, category, text, ref, note, technique):
+    CHECKS[pid] = dict(category=category, text=text, design_ref=ref, note=note, technique=technique)
+
+
+_T = "contract-based deductive verification: PyVC symbolic execution of the real function ASTs -> VCs discharged by z3 (cvc5 for unknowns)"
+_c("C01", "other", "Operation.backward (symbolic arity, arbitrary aliasing and prior gradients, all result kinds of backward_var) and reduce_broadcast / grad_post_process_fn are discharged deductively; "
+   "whole-program exactness additionally rests on C02 and the chain-rule lemma and is cross-checked by a bounded run-time contract against the numeric derivative of the NumPy twin.",
+   "DESIGN.md §6 C01, §14", "trusted: pyvc/graphdom.py NumPy axioms, abstract backward_var contract, chain rule; reals for floats; pointwise value abstraction; topological collector not yet under contract (bounded)", _T + "; bounded program catalogue")
+_c("C02", "other", "Every elementwise op/activation (own __call__/backward_var ASTs) has VJP, frame and alias contracts discharged by z3 for all real inputs; every other Operation subclass "
+   "(complete AST enumeration) is under a bounded run-time VJP contract over an enumerated catalogue, reported separately.",
+   "DESIGN.md §6 C02, §14", "trusted: contracts/derivative_table.py, identity basis in pyvc/realdom.py, NumPy kernels = mathematical namesakes, reals for floats; bounded: numeric central differences as oracle", _T + " (NRA); bounded VJP contract for kernels")
+_c("C03", "other", "Kernel-forwarding contracts of UnaryUfunc/BinaryUfunc/Sequential.__call__ for every concrete op class are discharged; value/shape/dtype agreement with NumPy over operand kinds x options is a bounded contract with NumPy as oracle.",
+   "DESIGN.md §6 C03, §14", "trusted: NumPy as oracle; casting in Tensor._op and thin wrappers bounded only; known finding F9", _T + "; bounded differential contract vs NumPy")
+_c("C04", "other", "mirror_tensor and reroute_ops_through (symbolic consumer sets / operand tuples, loop invariant) discharged; NumPy-mirror claim for whole statements is a bounded per-statement contract over programs and enumerated histories.",
+   "DESIGN.md §6 C04, §14", "trusted: NumPy as oracle, heap model; _in_place_op / shape.setter as wholes bounded only", _T + "; bounded history enumeration vs NumPy")
+_c("C05", "other", "ApplyMask / UnView backward rules discharged; graph consistency under in-place updates is a bounded contract against the numeric derivative of the NumPy twin.",
+   "DESIGN.md §6 C05, §14", "trusted: NumPy in-place semantics as specification; SetItem VJP and graph surgery bounded", _T + "; bounded functional-twin contract")
+_c("C06", "other", "Layout/ownership invariant of every gradient stored by Operation.backward discharged; availability/value/sharing of view gradients is a bounded contract over view chains x contribution orders x C/F layouts.",
+   "DESIGN.md §6 C06, §14", "trusted: layout axioms of np.copy/astype/empty_like; getter Tensor.grad bounded only", _T + "; bounded view-chain contract")
+_c("C07", "other", "clear_graph (per call, own contract for recursion), null_grad and pull-before-clear discharged; release by refcount, staleness and bit-identical repetition are bounded (weakrefs, gc disabled).",
+   "DESIGN.md §6 C07, §14", "trusted: CPython refcounting; closure over the whole graph follows by induction (not machine-checked)", _T + "; bounded liveness contract")
+_c("C08", "other", "Per-call contracts of array_is_tracked, lock_arr_writeability and the decision part of _release_lock_on_arr_writeability discharged for arbitrary table contents; history-level invariant is bounded.",
+   "DESIGN.md §6 C08, §14", "assumes id() injective, atomic finalizers; waiting-view loop and unique_arrs_and_bases bounded only", _T + " (symbolic dict/Counter/defaultdict); bounded history enumeration")
+_c("C09", "other", "Raise condition of the back-propagation step discharged for all arities; history-level claim is a bounded interleaving contract; known finding F4.",
+   "DESIGN.md §6 C09, §14", "stale-consumer invariant over histories not provable on this tree (F4)", _T + "; bounded interleavings")
+_c("C10", "other", "Dtype gate / default flag of Tensor.__init__, _resolve_constant and no-gradient-for-constants in Operation.backward discharged; inference over programs is bounded.",
+   "DESIGN.md §6 C10, §14", "trusted: abstract dtype lattice = NumPy issubclass tests", _T + "; bounded flag lattice")
+_c("C11", "other", "Operator call-equivalence (all arithmetic/indexing dunders) discharged on the AST; dispatch registries enumerated completely; spellings x options compared boundedly.",
+   "DESIGN.md §6 C11, §14", "trusted: NumPy dispatch protocol; known finding F9 shared with C03", _T + "; exhaustive registry enumeration; bounded spelling comparison")
+_c("C12", "other", "Ownership/no-alias invariant (OWNG) of Operation.backward and the write frames of all elementwise backward rules discharged; checksums and pairwise shares_memory over catalogue and every registered op are bounded; known finding F6.",
+   "DESIGN.md §6 C12, §14", "frames of non-elementwise kernels (incl. numba) bounded only", _T + "; bounded checksum contract")
+_c("C13", "other", "Lock/release round trip and rerouting primitive discharged; no-trace for whole statements is a bounded fault-injection contract (every position x 15 failing kinds x epochs).",
+   "DESIGN.md §6 C13, §14", "Tensor._op / _in_place_op exceptional paths bounded only", _T + "; bounded fault injection")
+_c("C14", "other", "I1 (type/shape/dtype) for Operation.backward and reduce_broadcast discharged; all writers of _grad enumerated from the AST on every run; seeding identities bounded; known finding F5b.",
+   "DESIGN.md §6 C14, §14", "seed path of Tensor.backward and GRU writers bounded only", _T + "; AST writer enumeration; bounded seeding contract")
+_c("C15", "proof", "Every obligation the property rests on -- enter/exit/decorator contracts of the three managers for arbitrary depth, state accessors, toggles, nesting lemma, untracked fast paths of _op/_in_place_op/backward/shape.setter -- is discharged by PyVC+z3; bounded nesting enumeration is a cross-check.",
+   "DESIGN.md §6 C15, §14", "trusted: Python `with` semantics as encoded in the executor; lemma is over contracts", _T)
+_c("C16", "other", "sliding_window_view (acceptance, shape, strides, in-bounds, read-only) and conv/pool validity incl. callee precondition discharged for unbounded integer values (enumerated dimension counts); layer values are a bounded contract vs naive formulas; known finding F8.",
+   "DESIGN.md §6 C16, §14", "trusted: as_strided addressing, C-contiguous strides; numeric kernels bounded", _T + " (NIA); bounded naive-formula contract")
+_c("C17", "other", "tensor()/astensor()/asarray() return-as-is rules and the Tensor.__init__ gate discharged; aliasing/dtype/creation agreement with NumPy is bounded over the input lattice.",
+   "DESIGN.md §6 C17, §14", "np.array/np.asarray aliasing is an axiom checked boundedly", _T + "; bounded input lattice")
+_c("C18", "other", "save/load call structure discharged with the savez/load axiom; end-to-end round trip bounded.",
+   "DESIGN.md §6 C18, §14", "trusted: np.savez/np.load round trip", _T + "; bounded round trips")
 
 PENDING_REASON = "check under construction in this commit (see DESIGN.md §14 build log); not yet claimed"
 
